@@ -176,24 +176,26 @@ pub fn run(ctx: &mut Ctx) {
     }
     // ADPCM, alone and combined with every second-stage method the compressor supports: length and channel interleaving
     // preserved, own output accepted; smooth, square-wave and click signals (transients make the ADPCM stream longer)
-    for &(m0, ch) in &[(flags::ADPCM_MONO, 1usize), (flags::ADPCM_STEREO, 2)] { for second in [0u8, flags::SPARSE, flags::ZLIB, flags::BZIP2, flags::PKWARE, flags::HUFFMAN] { for shape in 0..3u8 {
+    // (stereo: the steady channel is the left one, then the right one - a transient in either must not disturb the other)
+    for &(m0, ch, steady) in &[(flags::ADPCM_MONO, 1usize, 0usize), (flags::ADPCM_STEREO, 2, 0), (flags::ADPCM_STEREO, 2, 1)] { for second in [0u8, flags::SPARSE, flags::ZLIB, flags::BZIP2, flags::PKWARE, flags::HUFFMAN] { for shape in 0..3u8 {
         let m = m0 | second;
         if second != 0 && std::panic::catch_unwind(|| compress(&[0u8; 64], m)).map(|r| r.is_err()).unwrap_or(true) { ctx.out.stat(&format!("c03.adpcm_combo_unsupported.{m:#x}")); continue; }
         for &samples in &[1usize, 2, 3, 16, 100, 1000, 4001] {
             if second != 0 && samples < 16 { continue; }
             let mut d = Vec::new();
             for i in 0..samples { for c in 0..ch {
-                let v: i16 = if c == 0 && ch == 2 { 1000 } else { match shape { 0 => ((i as f32 * 0.05).sin() * 8000.0) as i16, 1 => if (i / 7) % 2 == 0 { 12000 } else { -12000 }, _ => if i % 53 == 0 { 30000 } else { 0 } } };
+                let v: i16 = if c == steady && ch == 2 { 1000 } else { match shape { 0 => ((i as f32 * 0.05).sin() * 8000.0) as i16, 1 => if (i / 7) % 2 == 0 { 12000 } else { -12000 }, _ => if i % 53 == 0 { 30000 } else { 0 } } };
                 d.extend_from_slice(&v.to_le_bytes()); } }
-            let desc = format!("adpcm selector={m:#x} channels={ch} samples={samples} shape={}", ["sine", "square", "clicks"][shape as usize]);
+            let desc = format!("adpcm selector={m:#x} channels={ch} steady={} samples={samples} shape={}", if ch == 2 { ["left", "right"][steady] } else { "-" }, ["sine", "square", "clicks"][shape as usize]);
             let r = std::panic::catch_unwind(|| compress(&d, m).and_then(|c| if c.len() < d.len() { decompress(&c[1..], m, d.len()) } else { Ok(c) }));
             match r {
                 Ok(Ok(out)) => {
                     ctx.out.oracle(out.len() == d.len(), "adpcm-length", &format!("{desc}: {} -> {}", d.len(), out.len()));
-                    if out.len() == d.len() && ch == 2 && samples >= 16 && shape == 0 {
-                        // channel 0 was constant 1000: it must stay near-constant (no swap with the sine channel)
-                        let worst = (0..samples).map(|i| (i16::from_le_bytes([out[4 * i], out[4 * i + 1]]) as i32 - 1000).abs()).max().unwrap_or(0);
-                        ctx.out.oracle(worst < 600, "adpcm-interleaving", &format!("{desc}: left channel deviates by {worst}"));
+                    if out.len() == d.len() && ch == 2 && samples >= 16 {
+                        // the steady channel was constant 1000: it must stay near-constant whatever the other channel does
+                        // (no swap, no decoder state crossing over at a step-size marker)
+                        let worst = (0..samples).map(|i| (i16::from_le_bytes([out[4 * i + 2 * steady], out[4 * i + 2 * steady + 1]]) as i32 - 1000).abs()).max().unwrap_or(0);
+                        ctx.out.oracle(worst < 600, "adpcm-interleaving", &format!("{desc}: steady channel deviates by {worst}"));
                     }
                 }
                 Ok(Err(e)) => ctx.out.oracle(false, if second == 0 { "adpcm-error" } else if second == flags::PKWARE { "own-output-rejected-pkware" } else { "adpcm-combination-rejects-own-output" }, &format!("{desc}: {e}")),
